@@ -228,7 +228,7 @@ def _query(g):
         elif k == "subselect":
             uses_sub = True
             # the inner variable that is not projected is local to the sub-query, also when the outer pattern uses the same name
-            iv = g.choice(["k", "k", "s", "z", "x"])
+            iv = g.choice(["k", "s", "s", "z", "x"])
             where.append({"t": "subselect", "q": {"select": ["o"], "distinct": g.chance(0.5), "where": [{"t": "bgp", "triples": [[V("o"), g.pick(PREDS), V(iv)]]}]}})
             outer_bgp_vars = [v for v in outer_bgp_vars if v != iv]
         elif k == "group":
